@@ -412,7 +412,8 @@ impl SymExpr {
         match self {
             Self::Value(_) | Self::Var(_) => self.clone(),
             Self::Neg(expr) => match Arc::unwrap_or_clone(expr).simplify_canonical() {
-                SymExpr::Value(x) => SymExpr::Value(-x),
+                // nb. Constants are only folded if the result fits in an `i32`.
+                SymExpr::Value(x) if x != i32::MIN => SymExpr::Value(-x),
                 SymExpr::Neg(inner) => Arc::unwrap_or_clone(inner),
                 expr => Self::Neg(expr.into()),
             },
@@ -423,7 +424,9 @@ impl SymExpr {
                 match (lhs, rhs) {
                     (SymExpr::Value(0), rhs) => rhs,
                     (lhs, SymExpr::Value(0)) => lhs,
-                    (SymExpr::Value(x), SymExpr::Value(y)) => SymExpr::Value(x + y),
+                    (SymExpr::Value(x), SymExpr::Value(y)) if x.checked_add(y).is_some() => {
+                        SymExpr::Value(x + y)
+                    }
                     (lhs, SymExpr::Neg(rhs)) if lhs == *rhs => SymExpr::Value(0),
                     (lhs, rhs) => lhs + rhs,
                 }
@@ -434,7 +437,9 @@ impl SymExpr {
 
                 match (lhs, rhs) {
                     (lhs, SymExpr::Value(0)) => lhs,
-                    (SymExpr::Value(x), SymExpr::Value(y)) => SymExpr::Value(x - y),
+                    (SymExpr::Value(x), SymExpr::Value(y)) if x.checked_sub(y).is_some() => {
+                        SymExpr::Value(x - y)
+                    }
                     (lhs, rhs) if lhs == rhs => SymExpr::Value(0),
                     (lhs, rhs) => lhs - rhs,
                 }
@@ -446,7 +451,9 @@ impl SymExpr {
                 match (lhs, rhs) {
                     (SymExpr::Value(1), rhs) => rhs,
                     (lhs, SymExpr::Value(1)) => lhs,
-                    (SymExpr::Value(x), SymExpr::Value(y)) => SymExpr::Value(x * y),
+                    (SymExpr::Value(x), SymExpr::Value(y)) if x.checked_mul(y).is_some() => {
+                        SymExpr::Value(x * y)
+                    }
                     (lhs, rhs) => lhs * rhs,
                 }
             }
@@ -457,13 +464,22 @@ impl SymExpr {
 
                 match (lhs, rhs) {
                     (lhs, SymExpr::Value(1)) => lhs,
-                    (SymExpr::Value(x), SymExpr::Value(y)) if y != 0 => SymExpr::Value(x / y),
+                    (SymExpr::Value(x), SymExpr::Value(y))
+                        if y != 0 && (x, y) != (i32::MIN, -1) =>
+                    {
+                        SymExpr::Value(x / y)
+                    }
                     // x / b / c => x / (b * c)
-                    (SymExpr::Div(lhs, c1), c2) => match (&*c1, c2) {
-                        (SymExpr::Value(c1), SymExpr::Value(c2)) if *c1 != 0 && c2 != 0 => {
-                            (*lhs).clone() / SymExpr::Value(c1 * c2)
+                    (SymExpr::Div(lhs, c1), c2) => match (&*c1, &c2) {
+                        (SymExpr::Value(v1), SymExpr::Value(v2)) if *v1 != 0 && *v2 != 0 => {
+                            match v1.checked_mul(*v2) {
+                                Some(product) => (*lhs).clone() / SymExpr::Value(product),
+                                // The combined divisor does not fit in an
+                                // `i32`. Leave the expression as it is.
+                                None => SymExpr::Div(lhs, c1) / c2,
+                            }
                         }
-                        (c1, c2) => (*lhs).clone() / (c1.clone() * c2),
+                        _ => (*lhs).clone() / ((*c1).clone() * c2),
                     },
                     (lhs, rhs) => lhs / rhs,
                 }
@@ -474,7 +490,9 @@ impl SymExpr {
 
                 match (lhs, rhs) {
                     (lhs, SymExpr::Value(1)) => lhs,
-                    (SymExpr::Value(x), SymExpr::Value(y)) if y != 0 => {
+                    (SymExpr::Value(x), SymExpr::Value(y))
+                        if y != 0 && (x, y) != (i32::MIN, -1) =>
+                    {
                         SymExpr::Value(div_ceil(x, y))
                     }
                     // x/x => 1
@@ -486,13 +504,20 @@ impl SymExpr {
                     // be implemented.
                     (lhs, rhs) if lhs == rhs => SymExpr::Value(1),
 
-                    // x.div_ceil(b).div_ceil(c) => x.div_ceil(b * c) if b > 0
-                    // and c > 0.
-                    (SymExpr::DivCeil(lhs, c1), c2) => match (&*c1, c2) {
-                        (SymExpr::Value(c1), SymExpr::Value(c2)) if *c1 > 0 && c2 > 0 => {
-                            lhs.div_ceil(&SymExpr::Value(c1 * c2))
+                    // x.div_ceil(b).div_ceil(c) => x.div_ceil(b * c) if c > 0.
+                    //
+                    // This does not hold for a negative `c`, so the rewrite
+                    // is only applied if `c` is known to be positive.
+                    (SymExpr::DivCeil(lhs, c1), c2) if c2.is_positive() => match (&*c1, &c2) {
+                        (SymExpr::Value(v1), SymExpr::Value(v2)) if *v1 > 0 && *v2 > 0 => {
+                            match v1.checked_mul(*v2) {
+                                Some(product) => lhs.div_ceil(&SymExpr::Value(product)),
+                                // The combined divisor does not fit in an
+                                // `i32`. Leave the expression as it is.
+                                None => SymExpr::DivCeil(lhs, c1).div_ceil(&c2),
+                            }
                         }
-                        (c1, c2) => lhs.div_ceil(&(c1.clone() * c2)),
+                        _ => lhs.div_ceil(&((*c1).clone() * c2)),
                     },
                     (lhs, rhs) => lhs.div_ceil(&rhs),
                 }
